@@ -182,6 +182,16 @@ func c08Gamma(c *C08Gamma, r *core.Rec) {
 	for k := 1; k <= 80; k++ {
 		xs = append(xs, a*float64(k)/20)
 	}
+	// an absolute grid and the tail in units of the standard deviation: for small a
+	// the upper tail is still above 1e-9 far beyond 4a
+	for k := 1; k <= 160; k++ {
+		xs = append(xs, float64(k)/4)
+	}
+	for j := -5; j <= 45; j++ {
+		if x := a + float64(j)*math.Sqrt(a); x > 0 {
+			xs = append(xs, x)
+		}
+	}
 	up, dn := a+1, a+1
 	xs = append(xs, a+1)
 	for i := 0; i < 2; i++ {
@@ -349,7 +359,7 @@ func c08Run(c *core.Ctx) {
 		r.Case("gammainc", gc)
 		r.Try(func() { c08Gamma(gc, r) })
 	}
-	r.Bound("GammaInc", fmt.Sprintf("%d values of a x ~92 x", len(ga)))
+	r.Bound("GammaInc", fmt.Sprintf("%d values of a x ~300 x (a*k/20, k/4 up to 40, a+j*sqrt(a) for j=-5..45, extremes)", len(ga)))
 	cc := &C08Choose{}
 	for n := 0; n <= 1000; n++ {
 		if !c.Mine() {
